@@ -178,7 +178,7 @@ func (s *SolveStats) add(be string, secs float64, discharged bool) {
 // solveAll discharges the obligations in parallel, racing the back ends.
 func (e *Engine) solveAll(obls []*Obligation, workDir string, stats *SolveStats, allBackends bool) {
 	os.MkdirAll(workDir, 0o755)
-	sem := make(chan struct{}, 14)
+	sem := make(chan struct{}, 12)
 	var wg sync.WaitGroup
 	// identical queries are solved once
 	type key struct{ q string }
